@@ -293,7 +293,7 @@ def run(ctx):
     # quick tier: the interleaving targets and the batch that meets UNPREPARED; arity is also reached by the walks
     fut_targets = [pool.submit(_target, ctx, t) for t in (TARGETS[:8] if quick else TARGETS)]
     fut_walks = [pool.submit(_walks, ctx, lru, uq, nwalk // 2, ctx.seed * 7919 + lru) for lru, uq in ((1, "TRUE"), (2, "FALSE"))]
-    fut_models = [pool.submit(_model_pass, ctx, m, 4 if quick else 6, 900 if quick else 3000, "4g" if quick else "8g")
+    fut_models = [pool.submit(_model_pass, ctx, m, 4 if quick else 6, 900 if quick else 3000, "4g" if quick else "6g")
                   for m in models]
 
     # ---- 2. behaviours -> scenarios
